@@ -1,3 +1,5 @@
+//go:build verif
+
 package checks
 
 // C15 — untrusted peers cannot crash, stall or bloat the node.
